@@ -49,6 +49,7 @@ type Profile struct {
 	PCrashUndurableTerm                                                          float64 // crash a leader/candidate whose current term is not durable yet
 	PLateType                                                                    float64 // per run: one message type is systematically delayed by election timeouts
 	RemoveBias                                                                   float64 // probability that a membership change removes a voter other than the proposer
+	HoldSnapshot                                                                 float64 // a node that has just accepted a snapshot is stalled (keeps the install pending) with this probability
 	SnapChaos                                                                    float64 // MsgSnap is delayed by election timeouts / duplicated with this probability
 	PWideIDs                                                                     float64 // node ids spread over the whole uint64 range (hash-style ids) instead of 1..n
 	ShortElection                                                                bool
@@ -132,6 +133,8 @@ type genNode struct {
 	slowUntil     int64
 	threadStall   int64
 	restartAt     int64
+	heldSnap      bool
+	applyStall    int64
 }
 
 // Gen drives one run: it owns the PRNG and the simulated clock, turns events
@@ -433,6 +436,22 @@ func (g *Gen) after() {
 		if !n.up {
 			continue
 		}
+		// targeted: keep a freshly accepted snapshot pending for a while
+		if g.p.HoldSnapshot > 0 && n.st.UnstableSnapshot != nil && !gn.heldSnap && g.allow("slow") {
+			gn.heldSnap = true
+			if n.cfg.Async && len(n.applyQ)+len(n.applyResps) > 0 && chance(g.rng, g.p.HoldSnapshot) {
+				// the apply thread is still busy with older entries: let the
+				// snapshot overtake it
+				gn.applyStall = g.now + int64((2+5*g.rng.Float64())*float64(g.maxET)*tickUnit)
+				c.stats.fault("apply_thread_overtaken_by_snapshot")
+			} else if chance(g.rng, g.p.HoldSnapshot) {
+				d := g.now + int64((1+4*g.rng.Float64())*float64(g.maxET)*tickUnit)
+				gn.slowUntil, gn.threadStall = d, d
+				c.stats.fault("snapshot_install_held")
+			}
+		} else if n.st.UnstableSnapshot == nil {
+			gn.heldSnap = false
+		}
 		// targeted: a leader (or candidate) whose term/vote is not on disk yet
 		if g.p.PCrashUndurableTerm > 0 && n.st.State != raft.StateFollower && n.disk.dur.hs.GetTerm() < n.st.Term && g.allow("crash") && c.viol == nil {
 			pc := g.p.PCrashUndurableTerm
@@ -469,6 +488,9 @@ func (g *Gen) after() {
 				d := int64((0.05 + 0.6*g.rng.Float64()) * tickUnit)
 				if gn.threadStall > g.now && chance(g.rng, 0.5) {
 					d += gn.threadStall - g.now
+				}
+				if gn.applyStall > g.now+d {
+					d = gn.applyStall - g.now
 				}
 				g.schedule(&event{at: g.now + d, kind: evApplyThread, n: id})
 			}
